@@ -490,9 +490,44 @@ def wrapper_eq(prog: Program) -> RuleResult:
     return r
 
 
+def exc_kept(prog: Program) -> RuleResult:
+    """A caught exception carries its traceback, the traceback its frames, the frames their locals - the very instances the failing operation
+    was about.  Stored on an object the library keeps (a relation is edge data of the symbol graph, an expression is in the expression
+    registry), the exception pins those instances for as long as the graph lives: they are never reclaimed, never swept, and the graph
+    grows with every failed relating statement."""
+    r = RuleResult("EXC-KEPT", "no caught exception is stored on an object the library keeps", floor=1)
+    n = 0
+    bad = None
+    for f in sorted(prog.functions.values(), key=lambda x: x.qual):
+        if ".entity_query_language." not in f.qual and ".ontomatic." not in f.qual and ".class_diagrams." not in f.qual:
+            continue
+        for h in [x for x in walk_local(f.node) if isinstance(x, ast.ExceptHandler) and x.name]:
+            n += 1
+            for st in h.body:
+                for x in ast.walk(st):
+                    stores = []
+                    if isinstance(x, ast.Assign):
+                        stores = [(t, x.value) for t in x.targets]
+                    if isinstance(x, ast.Call) and isinstance(x.func, ast.Attribute) and x.func.attr in ("append", "add", "setdefault", "update") and x.args:
+                        stores = [(x.func.value, a) for a in x.args]
+                    for tgt, val in stores:
+                        kept = isinstance(tgt, (ast.Attribute, ast.Subscript)) or (isinstance(tgt, ast.Attribute))
+                        if kept and any(isinstance(y, ast.Name) and y.id == h.name for y in ast.walk(val)):
+                            # str(e) / repr(e) / type(e) keep no traceback
+                            plain = isinstance(val, ast.Call) and isinstance(val.func, ast.Name) and val.func.id in ("str", "repr", "type", "format")
+                            if not plain:
+                                bad = bad or (f, x)
+    r.check(bad is None, "library#no-stored-exception", site(bad[0], bad[1]) if bad else "src/krrood", src(bad[1])[:80] if bad else f"{n} named handler(s)", "caught exceptions are handled, re-raised or reduced to text",
+            f"`{src(bad[1])[:70] if bad else ''}` ({bad[0].short if bad else ''}) keeps the exception object: its traceback holds the frames of the failed operation and, through their locals, the instances involved - "
+            "they stay alive, in the symbol graph and in every domain-less variable, after the program dropped them")
+    if n < 1:
+        r.note("no named exception handler in the scanned packages")
+    return r
+
+
 def run(prog: Program, tier: str) -> List[RuleResult]:
     from . import c13
 
     return [guard(lambda: strong_ref(prog)), guard(lambda: weak_wrapper(prog)), guard(lambda: c14.sg_coherence(prog)), guard(lambda: c14.idkey(prog)), guard(lambda: c14.sg_purge_directions(prog)), guard(lambda: c13.sg_sweep(prog)), guard(lambda: _stream_lazy(prog)),
             # an edge whose payload was overwritten leaves its pair in the relation index for good
-            guard(lambda: c14.rel_edges(prog)), guard(lambda: sg_no_raw(prog)), guard(lambda: _pd_field(prog)), guard(lambda: wrapper_eq(prog))]
+            guard(lambda: c14.rel_edges(prog)), guard(lambda: sg_no_raw(prog)), guard(lambda: _pd_field(prog)), guard(lambda: wrapper_eq(prog)), guard(lambda: exc_kept(prog))]
